@@ -20,7 +20,9 @@ type RenderContext struct {
 	env                *Environment
 	context            map[string]interface{}
 	blocks             map[string][]Node
-	parentBlocks       map[string][]Node // Original block content from parent templates
+	parentBlocks       map[string][]Node       // Original block content from parent templates
+	blockChain         map[string][]*BlockNode // Definitions of each block along the extends chain, most derived first
+	blockLevel         int                     // Position of currentBlock in its chain (for parent() function)
 	macros             map[string]Node
 	parent             *RenderContext
 	engine             *Engine    // Reference to engine for loading templates
@@ -113,6 +115,8 @@ func NewRenderContext(env *Environment, context map[string]interface{}, engine *
 	ctx.parent = nil
 	ctx.inParentCall = false
 	ctx.sandboxed = false
+	ctx.blockChain = nil
+	ctx.blockLevel = 0
 
 	// Copy the context values directly
 	if context != nil {
@@ -130,6 +134,7 @@ func (ctx *RenderContext) Release() {
 	ctx.env = nil
 	ctx.engine = nil
 	ctx.currentBlock = nil
+	ctx.blockChain = nil
 
 	// Save the maps so we can return them to their respective pools
 	contextMap := ctx.context
@@ -328,6 +333,8 @@ func (ctx *RenderContext) Clone() *RenderContext {
 	newCtx.currentBlock = nil
 	newCtx.parent = ctx
 	newCtx.inParentCall = false
+	newCtx.blockChain = nil
+	newCtx.blockLevel = 0
 
 	// Inherit sandbox state
 	newCtx.sandboxed = ctx.sandboxed
